@@ -45,6 +45,12 @@ let rec parse_val (toks : ostring list ref) : value =
           let k = (match !toks with k :: r -> toks := r; k | [] -> failwith "O key") in
           let kb = bytes_of_hex (String.sub k 1 (String.length k - 1)) in
           let v = parse_val toks in (kb, v)))
+    | 'Q' ->
+      let n = int_of_string body in
+      VMap (List.init n (fun _ ->
+          let k = (match !toks with k :: r -> toks := r; k | [] -> failwith "Q key") in
+          let kb = bytes_of_hex (String.sub k 1 (String.length k - 1)) in
+          let v = parse_val toks in (kb, v)))
     | 'H' -> VFunc (z_of_dec body)
     | 'B' -> VBuiltin (bytes_of_hex body)
     | 'P' -> VNilPtr
